@@ -455,6 +455,10 @@ func refusedClass(r *Row) string {
 	return "generic"
 }
 
+// capture, when set (stress mode), receives every constructed case as a closure on the real code plus the verdict
+// the table gives it, instead of the case being judged on the spot.
+var capture func(r *Row, api string, want bool, call func() bool)
+
 // judge compares the code's answer with the row's verdict; returns the number of failures reported.
 func judge(out *vio.Out, sum *Summary, r *Row, api string, got bool, panicked string, line []byte, inst int, bts map[string]string) {
 	sum.count(0, 1, 0)
@@ -596,6 +600,12 @@ func rowEcdsa(out *vio.Out, sum *Summary, r *Row, line []byte, rng *rand.Rand, i
 	if rv != r.V && !trustSpec {
 		return fmt.Errorf("specification says %s, reference says %s (%s) for pk=%x sig=%x msg=%x", r.V, rv, why, pk, sig, msg)
 	}
+	if capture != nil {
+		if r.V != "either" {
+			capture(r, "btc.EcdsaVerify", r.V == "accept", func() bool { return btc.EcdsaVerify(pk, sig, msg) })
+		}
+		return nil
+	}
 	var got, got2 bool
 	p := safely(func() { got = btc.EcdsaVerify(pk, sig, msg) })
 	bts := map[string]string{"pubkey": hx(pk), "sig": hx(sig), "msg": hx(msg), "r": vr.Text(16), "s": vs.Text(16)}
@@ -684,6 +694,10 @@ func rowSchnorr(out *vio.Out, sum *Summary, r *Row, line []byte, rng *rand.Rand,
 	want := ref.SchnorrVerify(pk, msg, sig)
 	if want != (r.V == "accept") && !trustSpec {
 		return fmt.Errorf("specification says %s, reference says %v for pk=%x sig=%x msg=%x", r.V, want, pk, sig, msg)
+	}
+	if capture != nil {
+		capture(r, "btc.SchnorrVerify", r.V == "accept", func() bool { return btc.SchnorrVerify(pk, sig, msg) })
+		return nil
 	}
 	var got bool
 	p := safely(func() { got = btc.SchnorrVerify(pk, sig, msg) })
@@ -823,6 +837,10 @@ func rowTweak(out *vio.Out, sum *Summary, r *Row, line []byte, rng *rand.Rand, i
 	if want != (r.V == "accept") && !trustSpec {
 		return fmt.Errorf("specification says %s, reference says %v for q=%x p=%x t=%x parity=%v", r.V, want, q32, p32, t32, parity)
 	}
+	if capture != nil {
+		capture(r, "btc.CheckPayToContract", r.V == "accept", func() bool { return btc.CheckPayToContract(q32, p32, t32, parity) })
+		return nil
+	}
 	var got bool
 	p := safely(func() { got = btc.CheckPayToContract(q32, p32, t32, parity) })
 	sum.count(1, 0, 0)
@@ -847,6 +865,10 @@ func rowParse(out *vio.Out, sum *Summary, r *Row, line []byte, rng *rand.Rand, i
 		_, want := ref.LiftXEven(ref.FromBytes(b))
 		if want != (r.V == "accept") && !trustSpec {
 			return fmt.Errorf("specification says %s, reference says %v for x-only key %x", r.V, want, b)
+		}
+		if capture != nil {
+			capture(r, "XY.ParseXOnlyPubkey", r.V == "accept", func() bool { var xy secp256k1.XY; return xy.ParseXOnlyPubkey(b) })
+			return nil
 		}
 		var got bool
 		p := safely(func() {
@@ -876,6 +898,10 @@ func rowParse(out *vio.Out, sum *Summary, r *Row, line []byte, rng *rand.Rand, i
 	_, want := ref.ParsePubKey(b)
 	if want != (r.V == "accept") && !trustSpec {
 		return fmt.Errorf("specification says %s, reference says %v for key %x", r.V, want, b)
+	}
+	if capture != nil {
+		capture(r, "btc.NewPublicKey", r.V == "accept", func() bool { k, e := btc.NewPublicKey(b); return e == nil && k != nil })
+		return nil
 	}
 	var got, valid bool
 	p := safely(func() {
@@ -920,6 +946,23 @@ func rowRecover(out *vio.Out, sum *Summary, r *Row, line []byte, rng *rand.Rand,
 	}
 	if wantOk && !ref.EcdsaVerify(wantKey, msg, sg) {
 		return fmt.Errorf("reference: recovered key does not verify")
+	}
+	if capture != nil {
+		var wu []byte
+		if wantOk {
+			wu = ref.SerializePubKey(wantKey, false)
+		}
+		capture(r, "Signature.RecoverPublicKey", true, func() bool {
+			var s btc.Signature
+			s.R.Set(sg.R)
+			s.S.Set(sg.S)
+			k := s.RecoverPublicKey(msg, recid)
+			if k == nil {
+				return !wantOk
+			}
+			return wantOk && bytes.Equal(k.Bytes(false), wu)
+		})
+		return nil
 	}
 	var gotC, gotU, normU []byte
 	var got bool
